@@ -5,7 +5,7 @@
 From Coq Require Import ZArith QArith.
 From PV Require Import Lib.Base Model.Prng Model.Core Model.Stratified.
 From mathcomp Require Import all_ssreflect.
-From PV Require Import Proofs.StratProofs.
+From PV Require Import Lib.Shuffle Proofs.StratProofs Proofs.StratUniform.
 Local Open Scope nat_scope.
 
 (* permute_within_groups (used by sim_corr, stratified_permutationtest, stratified_two_sample,
@@ -29,6 +29,25 @@ Theorem C02_within_group_permutation_acts_on_positions :
   end.
 Proof. exact pwg_acts_on_positions. Qed.
 Print Assumptions C02_within_group_permutation_acts_on_positions.
+
+(* Uniformity, independently in every stratum: the answers permute_within_groups consumes range over the product
+   space [prod_draws] (one block of Fisher-Yates answers per stratum, strata in sorted label order); on that space
+   the function is total, every output is an admissible position permutation (g[sigma i] = g[i]), different
+   answers give different outputs, and every admissible permutation is produced.  Uniform independent answers
+   therefore induce the uniform law on the admissible set, whose size is the product of the n_k!  -- i.e. the
+   product of the per-stratum uniform laws.  (By C02_within_group_permutation_acts_on_positions the output for
+   arbitrary values is the input read through that permutation.) *)
+Theorem C02_within_group_permutation_is_uniform_on_the_product : forall g : seq Z,
+  let n := size g in
+  let space := prod_draws (sizes g (unique g)) in
+  [/\ size space = \prod_(k <- unique g) (size (pos_of g k))`!,
+      forall t, t \in space -> exists2 sg, permute_within_groups 0 (iota 0 n) g t = Ok (sg, [::]) & admissible g sg,
+      forall t t' sg, t \in space -> t' \in space ->
+        permute_within_groups 0 (iota 0 n) g t = Ok (sg, [::]) ->
+        permute_within_groups 0 (iota 0 n) g t' = Ok (sg, [::]) -> t = t' &
+      forall sg, admissible g sg -> exists2 t, t \in space & permute_within_groups 0 (iota 0 n) g t = Ok (sg, [::])].
+Proof. exact pwg_uniform. Qed.
+Print Assumptions C02_within_group_permutation_is_uniform_on_the_product.
 
 (* the 'greater' entry of the stratified tail table is the textbook (H+c)/(reps+c) *)
 Theorem C02_greater_tail_is_textbook : forall hits reps plus1,
